@@ -174,7 +174,7 @@ def gen(rng, tier):
                                0.5 if kd == "linear" else 0.0, 2.0 if kd == "linear" else 0.0, k % 4, 0, N, 0,
                                0.5, 3, 30, vs))
         k += 1
-    count = 500 if tier == "quick" else 300
+    count = 500 if tier == "quick" else 1000
     for _ in range(count):
         ops.append(random_case(rng, tier))
     return ops
